@@ -102,6 +102,7 @@ type c20Gen struct {
 	data    uint64
 	cursors map[int]string
 	verHeavy bool
+	vepHeavy bool // versions with non-empty version epochs, interleaved with unversioned publishes
 }
 
 func (g *c20Gen) pickCh() int {
@@ -133,7 +134,17 @@ func (g *c20Gen) op() c20Op {
 			o.Tags = int64(r.Intn(4))
 		}
 		o.Delta = r.Intn(4) == 0
-		if g.verHeavy && r.Intn(4) != 0 {
+		if g.vepHeavy {
+			// few keys, small versions, mostly one epoch, every third publish unversioned
+			o.Key = c20Keys[r.Intn(2)]
+			if r.Intn(3) != 0 {
+				o.Ver = uint64(1 + r.Intn(4))
+				o.Vep = uint64(1 + r.Intn(5)/4) // epoch 1 mostly, sometimes 2
+				if r.Intn(8) == 0 {
+					o.Vep = 0
+				}
+			}
+		} else if g.verHeavy && r.Intn(4) != 0 {
 			o.Ver = uint64(1 + r.Intn(3))
 			if r.Intn(4) == 0 {
 				o.Vep = uint64(1 + r.Intn(2))
@@ -326,6 +337,22 @@ func c20Corpus() []struct {
 			{Kind: "rstream", Ch: 0, Limit: 1, Rev: &c20Pos{Off: 9, Epoch: 1}, Reverse: true, Tags: -1},
 			{Kind: "rstream", Ch: 0, Limit: -1, Rev: &c20Pos{Off: 0, Epoch: 2}, Tags: -1},
 			rs(0, 2), {Kind: "rstate", Ch: 0, Limit: 2, Cursor: "0\x00b", Tags: -1}}},
+		// version epoch survives an unversioned publish (and a keep-alive), changes with a new epoch
+		{[]c20Raw{per}, []c20Op{
+			with(c20P(0, "a", 1), func(o *c20Op) { o.Ver = 10; o.Vep = 1 }), c20P(0, "a", 2),
+			with(c20P(0, "a", 3), func(o *c20Op) { o.Ver = 7; o.Vep = 1 }),
+			with(c20P(0, "a", 4), func(o *c20Op) { o.Ver = 7; o.Vep = 2 }), c20P(0, "a", 5),
+			with(c20P(0, "a", 6), func(o *c20Op) { o.Ver = 7; o.Vep = 2 }),
+			with(c20P(0, "a", 7), func(o *c20Op) { o.Ver = 7; o.Vep = 1 }),
+			with(c20P(0, "a", 8), func(o *c20Op) { o.Ver = 3 }), rs(0, -1), rst(0, -1)}},
+		// an ordered channel first touched by a read is still sorted by score afterwards
+		{[]c20Raw{per, {Mode: 2, KeyTTL: 3, Ordered: true}}, []c20Op{
+			rs(0, -1), rst(1, -1),
+			with(c20P(0, "a", 1), func(o *c20Op) { o.Score = 1 }), with(c20P(0, "b", 2), func(o *c20Op) { o.Score = 3 }),
+			with(c20P(0, "ab", 3), func(o *c20Op) { o.Score = 2 }),
+			with(c20P(1, "a", 4), func(o *c20Op) { o.Score = -1 }), with(c20P(1, "b", 5), func(o *c20Op) { o.Score = 3 }),
+			with(c20P(1, "ab", 6), func(o *c20Op) { o.Score = 2 }),
+			rs(0, -1), rs(1, -1), with(rs(0, 2), func(o *c20Op) { o.Asc = true }), with(rs(1, 2), func(o *c20Op) { o.Asc = true })}},
 		// reads create channels; remove on a missing channel
 		{[]c20Raw{rec, per}, []c20Op{
 			{Kind: "remove", Ch: 1, Key: "a", Tags: -1},
@@ -360,9 +387,17 @@ func TestVerifC20(t *testing.T) {
 				names[k] = fmt.Sprintf("c%d", k)
 			}
 			e := c20NewEnv(t, cfgs, names)
-			g := &c20Gen{r: r, e: e, nch: nch, cursors: map[int]string{}, verHeavy: r.Intn(4) == 0}
+			g := &c20Gen{r: r, e: e, nch: nch, cursors: map[int]string{}, verHeavy: r.Intn(4) == 0, vepHeavy: r.Intn(5) == 0}
 			c = c20Case{Cfgs: cfgs}
 			emit := func(o c20Op, ob c20Obs) { c.Ops = append(c.Ops, o); c.Obs = append(c.Obs, ob) }
+			if r.Intn(3) == 0 { // channels first touched by a read (which creates the channel object) before any publish
+				for ch := 0; ch < nch; ch++ {
+					if r.Intn(3) != 0 {
+						o := c20Op{Kind: []string{"rstate", "rstream"}[r.Intn(2)], Ch: ch, Limit: -1, Tags: -1}
+						emit(o, e.exec(o))
+					}
+				}
+			}
 			n := 4 + r.Intn(22)
 			for k := 0; k < n; k++ {
 				o := g.op()
